@@ -31,6 +31,17 @@ pub fn scale(n: usize) -> usize {
     (n / d).max(1)
 }
 
+/// Isolation mode (HESIM_ONLY_RUN=<index>): execute exactly one run of the batch.
+pub fn only_run() -> Option<usize> {
+    std::env::var("HESIM_ONLY_RUN").ok().and_then(|s| s.parse().ok())
+}
+
+/// Directory where each worker notes which run it is executing, so that a supervisor can tell
+/// which runs were in flight when the process died (allocation failure, stack overflow, abort).
+pub fn inflight_dir(pid: u32) -> std::path::PathBuf {
+    verif_dir().join("replays").join(format!(".inflight-{}", pid))
+}
+
 pub fn workers() -> usize {
     std::env::var("HESIM_WORKERS").ok().and_then(|s| s.parse().ok()).unwrap_or(16).max(1)
 }
@@ -107,19 +118,35 @@ where
     let results: Mutex<Vec<Option<RunOut>>> = Mutex::new((0..n).map(|_| None).collect());
     let w = workers().min(n.max(1));
     let pid = prng::hash_label(0, prop);
+    let only = only_run();
+    let crumbs = inflight_dir(std::process::id());
+    let _ = std::fs::create_dir_all(&crumbs);
     std::thread::scope(|s| {
-        for _ in 0..w {
-            s.spawn(|| loop {
+        for wk in 0..w {
+            let crumb = crumbs.join(format!("w{}", wk));
+            let next = &next;
+            let results = &results;
+            let f = &f;
+            s.spawn(move || loop {
                 let i = next.fetch_add(1, Ordering::Relaxed);
                 if i >= n {
+                    let _ = std::fs::remove_file(&crumb);
                     break;
                 }
+                if let Some(k) = only {
+                    if i != k {
+                        results.lock().unwrap()[i] = Some(RunOut { degenerate: true, ..Default::default() });
+                        continue;
+                    }
+                }
+                let _ = std::fs::write(&crumb, i.to_string());
                 let run_seed = prng::mix(seed, pid, i as u64);
                 let out = f(i, run_seed);
                 results.lock().unwrap()[i] = Some(out);
             });
         }
     });
+    let _ = std::fs::remove_dir_all(&crumbs);
     let results = results.into_inner().unwrap();
     let mut b = Batch {
         runs: n,
@@ -158,7 +185,7 @@ where
         }
     }
     // determinism re-check: execute about 2% of the runs a second time and compare event-log hashes
-    let again: Vec<usize> = (0..n).filter(|i| i % 50 == 7 % n.max(1) || n < 50 && *i == 0).collect();
+    let again: Vec<usize> = if only.is_some() { Vec::new() } else { (0..n).filter(|i| i % 50 == 7 % n.max(1) || n < 50 && *i == 0).collect() };
     let mism = AtomicUsize::new(0);
     let next2 = AtomicUsize::new(0);
     std::thread::scope(|s| {
@@ -309,6 +336,17 @@ pub fn finish(
     minimise: &dyn Fn(&Violation) -> Violation,
     replay_fresh: &dyn Fn(&str) -> Option<bool>,
 ) -> i32 {
+    if only_run().is_some() {
+        // isolation mode: report what this single run found, nothing else
+        let mut code = 0;
+        for (i, v) in &batch.violations {
+            let path = write_replay(&rep.prop, rep.seed, *i, v);
+            println!("VIOLATION property={} replay={}", rep.prop, path);
+            println!("  key={} class={} {}", v.key, v.class, v.detail);
+            code = 1;
+        }
+        return code;
+    }
     let known = KnownFindings::load();
     let mut by_key: BTreeMap<String, (usize, Violation, usize)> = BTreeMap::new();
     for (i, v) in &batch.violations {
